@@ -159,6 +159,9 @@ type epSpec struct {
 	Node     string
 	SameOnly bool // DiscoverableFromSameCluster
 	Shard    int  // registry == cluster index
+	// SendUnhealthy is the registry's per-endpoint copy of "the service supports unhealthy endpoints" (the
+	// Kubernetes registry sets it from Service.SupportsUnhealthyEndpoints); only the seq stratum sets it.
+	SendUnhealthy bool
 }
 
 func (e epSpec) toIstio(ns string) *model.IstioEndpoint {
@@ -174,6 +177,8 @@ func (e epSpec) toIstio(ns string) *model.IstioEndpoint {
 		Network:         network.ID(e.Network),
 		NodeName:        e.Node,
 		Locality:        model.Locality{Label: e.Locality, ClusterID: cluster.ID(fmt.Sprintf("c%d", e.Shard))},
+
+		SendUnhealthyEndpoints: e.SendUnhealthy,
 	}
 	if e.SameOnly {
 		ie.DiscoverabilityPolicy = model.DiscoverableFromSameCluster
